@@ -117,6 +117,16 @@ func (p *c3Toks) attempt() c3Attempt {
 	default:
 		a.cancel = t
 	}
+	p.expect("tokshape")
+	for k := p.nat(); k > 0; k-- {
+		t := p.tok()
+		if t == "-" {
+			t = ""
+		}
+		a.tokShape = append(a.tokShape, t)
+	}
+	p.expect("validate")
+	a.validate = p.nat() != 0
 	return a
 }
 
